@@ -463,6 +463,23 @@ def silent(rep, tier):
         env_o.update({"a": A("ra"), "w": 2 + A("u") + A("tt"), "z0": A("ra") + 1 + A("u")})
         cr.add("O20.fires.sliced-beyond(D=%d)" % D, "O20.fires", D, ["a", "w"], "auto&& s = v.sliced(a, a + w); out[0] = s.size();", {(0, "must-assert"): P.const(0)},
                cases=[dict(env_o, __signs=sg2, __expect_assert=True)])
+    # taked(n) / dropped(n), D = 1 and 2: a count within [0, size] is silent and gives the stated size, a count beyond the size must reach the handler
+    for D in (1, 2):
+        envc, sgc = {}, {"ra": NONNEG, "u": NONNEG, "tt": NONNEG}
+        for k in range(D):
+            sgc["s%d" % k] = POS
+            if k:
+                envc["z%d" % k] = 1 + A("t%d" % k)
+                sgc["t%d" % k] = NONNEG
+        for opn, size_of in (("taked", lambda a_, z_: a_), ("dropped", lambda a_, z_: z_ - a_)):
+            env_s = dict(envc)
+            env_s.update({"a": A("ra"), "z0": A("ra") + A("tt")})
+            cr.add("O20.silent.%s(D=%d)" % (opn, D), "O20.silent", D, ["a"], "auto&& s = v.%s(a); out[0] = s.size();" % opn,
+                   {(0, "size"): size_of(A("ra"), A("ra") + A("tt"))}, cases=[dict(env_s, __signs=sgc)])
+            env_f = dict(envc)
+            env_f.update({"a": A("tt") + 1 + A("u"), "z0": A("tt")})
+            cr.add("O20.fires.%s-beyond(D=%d)" % (opn, D), "O20.fires", D, ["a"], "auto&& s = v.%s(a); out[0] = s.size();" % opn, {(0, "must-assert"): P.const(0)},
+                   cases=[dict(env_f, __signs=sgc, __expect_assert=True)])
     # flat element range of a 2-D view, row-major and column-major (transposed) with padding: every position 0 <= a < size can be reached by +=, by
     # -= from the end, by [] and by the range's own [] without an assertion (the position a lies in the first row: z1 = a + 1 + t, so a < size whatever
     # z0; in a column-major layout the leading dimension's element span is smaller than size: a test against it instead of num_elements() fires)
